@@ -17,7 +17,9 @@ impl Panic {
     /// File name without directories, message with numbers squashed:
     /// stable identification of a panic *site*.
     pub fn site(&self) -> String {
-        let file = self.file.rsplit('/').next().unwrap_or("?").to_string();
+        // last two path components: "machine/mod.rs" rather than "mod.rs"
+        let parts: Vec<&str> = self.file.rsplit('/').take(2).collect();
+        let file = if parts.len() == 2 && parts[0] == "mod.rs" { format!("{}/{}", parts[1], parts[0]) } else { parts.get(0).unwrap_or(&"?").to_string() };
         let mut msg = String::new();
         let mut last_digit = false;
         for c in self.msg.chars().take(80) {
